@@ -626,6 +626,19 @@ func condPhis(fn *ssa.Function) []*ssa.Phi {
 			}
 		}
 	}
+	// a returned error/pointer φ (named results, `return x, err`): nil or not is decided by the path
+	for _, b := range fn.Blocks {
+		if r, ok := b.Instrs[len(b.Instrs)-1].(*ssa.Return); ok {
+			for _, v := range r.Results {
+				if _, isPhi := v.(*ssa.Phi); isPhi {
+					switch v.Type().Underlying().(type) {
+					case *types.Interface, *types.Pointer:
+						add(v, 0)
+					}
+				}
+			}
+		}
+	}
 	// φs compared with nil (err := φ(callErr, nil); if err != nil): the test is
 	// correlated with the test that selected the operand
 	for _, b := range fn.Blocks {
